@@ -1,11 +1,6 @@
 (* Properties_C11.v — C11: next/prev_transition enumerate exactly the real changes. *)
-From CCTZ Require Import Base ZoneZ ZoneZProofs.
+From CCTZ Require Import Base ZoneZ ZoneZProofs C11Defs.
 Local Open Scope Z_scope.
-
-Definition first_after (l : list ztr) (t : Z) : option ztr :=
-  match filter (fun tr => t <? zt_time tr) l with x :: _ => Some x | [] => None end.
-Definition last_before (l : list ztr) (t : Z) : option ztr :=
-  match rev (filter (fun tr => zt_time tr <? t) l) with x :: _ => Some x | [] => None end.
 
 Theorem znext_spec : forall eqv z t, times_increasing (zz_tr z) = true ->
   znext eqv z t = first_after (zchanges eqv (zz_tr z) (zz_did z)) t.
@@ -40,3 +35,46 @@ Theorem znext_chain : forall eqv z t, times_increasing (zz_tr z) = true ->
   (forall tr, znext eqv z t = Some tr -> t < zt_time tr /\ In tr (zchanges eqv (zz_tr z) (zz_did z))).
 Proof. exact znext_chain_lemma. Qed.
 Print Assumptions znext_chain.
+
+From CCTZ Require Import Base Cal ZoneLoad ZoneImpl ZoneRefineDefs ZoneRefine NextPrevRefine.
+
+(* IMPLEMENTATION LEVEL: NextTransition / PrevTransition (checked int64, civil fields) never err on a
+   certified zone and return exactly the first real change after t / the last one before t, reported
+   as (one past the last civil second shown before it, the civil second shown at it).  bb_consistent:
+   a leading entry at -2^59 is the no-op sentinel of pre-2018 zic (its type equivalent to the default) *)
+Theorem c11_next_refines : forall z t, zone_ok z = true -> int64 t ->
+  bb_consistent z = true ->
+  next_transition z t =
+    OK (option_map (report z)
+          (first_after (zchanges (eqv_types z) (zz_tr (abs_zone z)) (zz_did (abs_zone z))) t)).
+Proof. exact next_transition_real_changes. Qed.
+Print Assumptions c11_next_refines.
+
+Theorem c11_prev_refines : forall z t, zone_ok z = true -> int64 t ->
+  bb_consistent z = true ->
+  prev_transition z t =
+    OK (option_map (report z)
+          (last_before (zchanges (eqv_types z) (zz_tr (abs_zone z)) (zz_did (abs_zone z))) t)).
+Proof. exact prev_transition_real_changes. Qed.
+Print Assumptions c11_prev_refines.
+
+Theorem c11_next_refines_searched : forall z t, zone_ok z = true -> int64 t ->
+  next_transition z t =
+    OK (match znext (eqv_types z) (searched z) t with
+        | None => None
+        | Some tr => Some (civil_of_seconds (prev_local z tr + 1),
+                           civil_of_seconds (zt_time tr + zt_off tr))
+        end).
+Proof. exact next_refines_lemma. Qed.
+Print Assumptions c11_next_refines_searched.
+
+Theorem c11_prev_refines_searched : forall z t, zone_ok z = true -> int64 t ->
+  prev_transition z t =
+    OK (match zprev (eqv_types z) (searched z) t with
+        | None => None
+        | Some tr => Some (civil_of_seconds (prev_local z tr + 1),
+                           civil_of_seconds (zt_time tr + zt_off tr))
+        end).
+Proof. exact prev_refines_lemma. Qed.
+Print Assumptions c11_prev_refines_searched.
+
